@@ -298,16 +298,22 @@ def items(tier: str, seed: int) -> List[Dict[str, Any]]:
                 out.append({"ob": "layout_independence", "params": {"group": GROUPS[g], "prefix": [first], "L": 3}, "timeout": 400,
                             "label": f"layout_independence[{g},K=4,{first}+2]"})
     else:
-        # length 4 (two events fixed per item) for the K=4 groups; length 3 for the larger groups
+        # everything the quick tier has ...
         for g in ("idle", "regions", "mixed", "busy"):
-            for first in ("GO", "LEAVE", "BACK", "BACKS", "RE"):
-                for second in EVENTS:
+            for first in EVENTS:
+                out.append({"ob": "layout_independence", "params": {"group": GROUPS[g], "prefix": [first], "L": 3}, "timeout": 600,
+                            "label": f"layout_independence[{g},K=4,{first}+2]"})
+        # ... length 4 behind the two events that set up a history restore ...
+        for g in ("idle", "regions", "mixed"):
+            for first in ("LEAVE", "GO"):
+                for second in (EVENTS if first == "LEAVE" else ("LEAVE", "G3")):
                     out.append({"ob": "layout_independence", "params": {"group": GROUPS[g], "prefix": [first, second], "L": 4}, "timeout": 900,
-                                "label": f"layout_independence[{g},K={len(GROUPS[g])},{first},{second}+2]"})
+                                "label": f"layout_independence[{g},K=4,{first},{second}+2]"})
+        # ... and five permuted nodes at length 3
         for g in ("leaves5", "deep5"):
-            for first in ("GO", "LEAVE", "BACK", "BACKS", "RE"):
-                out.append({"ob": "layout_independence", "params": {"group": GROUPS[g], "prefix": [first], "L": 3}, "timeout": 1200,
-                            "label": f"layout_independence[{g},K={len(GROUPS[g])},{first}+2]"})
+            for first in ("GO", "LEAVE", "BACK", "RE"):
+                out.append({"ob": "layout_independence", "params": {"group": GROUPS[g], "prefix": [first], "L": 3}, "timeout": 1300,
+                            "label": f"layout_independence[{g},K=5,{first}+2]"})
     for lo in range(0, 16 if quick else 64, 4):
         out.append({"ob": "hashseed_independence", "params": {"group": [], "seeds": [lo + 1, lo + 5]}, "timeout": 300,
                     "label": f"hashseed_independence[PYTHONHASHSEED {lo + 1}..{lo + 4}]"})
